@@ -6,6 +6,8 @@ package sim
 
 import (
 	"fmt"
+	"os"
+	"strconv"
 	"strings"
 	"time"
 
@@ -179,6 +181,7 @@ type Net struct {
 	closed  bool
 	// Deliveries[j]: every packet handed to node j, with the index of the "deliver" event
 	Deliveries map[int][]Delivery
+	claims     map[string]bool
 	// hooks
 	OnEmit func(n *Node, p *Packet) // called when a correct node emits a message
 }
@@ -189,6 +192,9 @@ func (net *Net) Logf(format string, a ...interface{}) {
 
 // Tail returns the last k events, for failure messages.
 func (net *Net) Tail(k int) string {
+	if v, err := strconv.Atoi(os.Getenv("VERIF_TAIL")); err == nil && v > 0 {
+		k = v
+	}
 	ev := net.Events
 	if len(ev) > k {
 		ev = ev[len(ev)-k:]
@@ -218,7 +224,7 @@ func New(c Config) (*Net, error) {
 	if err := gen.ValidateAndComplete(); err != nil {
 		return nil, err
 	}
-	net := &Net{Cfg: c, GenDoc: gen, Nodes: map[int]*Node{}, Blocked: map[[2]int]bool{}, Deliveries: map[int][]Delivery{}}
+	net := &Net{Cfg: c, GenDoc: gen, Nodes: map[int]*Node{}, Blocked: map[[2]int]bool{}, Deliveries: map[int][]Delivery{}, claims: map[string]bool{}}
 	for _, k := range c.Correct {
 		n, err := net.newNode(k)
 		if err != nil {
